@@ -1,10 +1,8 @@
 \* Not run by any check.  FreeOrder = TRUE lets a message handler run although a worker's death is already
-\* queued (what a multi-threaded runtime can do and engine T cannot).  TLC reports QueueBound violated here:
-\* enqueue_job hands a job to a closed worker, dispatch_job puts it back at the head of the worker queue and the
-\* function returns before the DiscardMode::Oldest shedding loop, so the worker queue exceeds the limit until the
-\* replacement has worked it off.  With Routing0 = "sticky" (MC_Factory_sticky.cfg + FreeOrder) KeyExclusive fails the
-\* same way (the parked job carries no in-flight entry, the next job of the key goes to another worker).
-\* Model-level observations; not reproduced on the real code.
+\* queued (what a multi-threaded runtime can do and engine T cannot).  The two situations this configuration first
+\* showed (worker queue over the limit / sticky key on two workers after a job was parked on a closed worker) are
+\* reproduced on the real code since the harness has a worker that stays closed during post_stop; they are the named
+\* deviations ClosedWorkerQueueOverLimit and ParkedJobNotSticky (see MC_Factory_keyp_stop.cfg / MC_Factory_sticky_stop.cfg).
 SPECIFICATION MCSpec
 CONSTANTS
   MaxW = 3
